@@ -251,6 +251,7 @@ class ClassInfo:
         self.settings_reads = {}  # method -> {settings class}: global settings consulted
         self.settings_stores = set()   # (attr, setting, in_init): `self.<attr> = <expression mentioning a setting>`
         self.ctor_aliases = set()      # (registered name, expression): parameter / buffer that may share the caller's tensor
+        self.global_uses = set()       # (global name, kind, method): module-level Module / tensor constant used by a method
 
 
     def own_reads_all(self):
@@ -805,6 +806,48 @@ class Translator:
                                 ci.ctor_aliases.add((q, ast.unparse(val)[:80]))
         run(fn.body, set(start))
 
+    # ------------------------------------------------------------------ module-level Module / tensor constants
+    TENSOR_FACTORIES = {"torch.tensor", "torch.zeros", "torch.ones", "torch.eye", "torch.full", "torch.rand", "torch.randn",
+                        "torch.arange", "torch.linspace", "torch.as_tensor", "torch.empty", "torch.nn.Parameter",
+                        "torch.nn.parameter.Parameter"}
+
+    def scan_globals(self):
+        """Module-level names bound to a `torch.nn.Module` instance or a tensor (ONE object per process): a method that
+        uses such a name as a default (`noise_constraint = _DEFAULT`) makes every instance share it."""
+        self.module_globals = {}
+        for f, t in self.pkg.trees.items():
+            for n in t.body:
+                if isinstance(n, (ast.Assign, ast.AnnAssign)) and isinstance(getattr(n, "value", None), ast.Call):
+                    try:
+                        r = self.pkg.resolve_expr(f, n.value.func)
+                    except TranslateError:
+                        r = None
+                    kind = None
+                    if r and r[0] == "cls" and (r[1], r[2]) in self.info and self.info[(r[1], r[2])].is_module:
+                        kind = "module"
+                    elif r and r[0] == "ext":
+                        d = _canon_ext(r[1])
+                        if d in self.TENSOR_FACTORIES:
+                            kind = "tensor"
+                        elif d.startswith("torch.nn.") and not d.startswith(("torch.nn.functional", "torch.nn.init", "torch.nn.utils")):
+                            kind = "module"
+                    if kind:
+                        for t_ in (n.targets if isinstance(n, ast.Assign) else [n.target]):
+                            if isinstance(t_, ast.Name):
+                                self.module_globals[(f, t_.id)] = kind
+
+    def scan_global_uses(self, ci):
+        for mname, fns in ci.methods.items():
+            for fn in fns:
+                for x in ast.walk(fn):
+                    if isinstance(x, ast.Name) and isinstance(x.ctx, ast.Load):
+                        key = (ci.file, x.id)
+                        if key not in self.module_globals:
+                            e = self.pkg.imports.get(ci.file, {}).get(x.id)
+                            key = (e[1], e[2]) if e and e[0] == "int" and e[2] is not None else None
+                        if key in self.module_globals:
+                            ci.global_uses.add((x.id, self.module_globals[key], mname))
+
     def light_scan(self, key):
         """members and `self.<attr>` reads of a non-Module mix-in class"""
         ci = self.info[key]
@@ -1005,8 +1048,8 @@ class Translator:
                     if all(isinstance(s, ast.Pass) or (isinstance(s, ast.Return) and (s.value is None or
                            (isinstance(s.value, ast.Constant) and s.value.value is None))) for s in body):
                         F["strategyDeepcopyNone"] = True
-                    else:
-                        raise TranslateError("DefaultPredictionStrategy.__deepcopy__ outside the vocabulary")
+                    # any other body (it returns some object) is in the vocabulary as "does not return None": the fact
+                    # stays false and `caches_guarded_on_copy` fails, while the class table stays available to the harness
 
     # ------------------------------------------------------------------ run / emit
     def run(self):
@@ -1030,6 +1073,9 @@ class Translator:
             self.scan_class(k)
         for k in self.keys:
             self.scan_registrar_calls(k)
+        self.scan_globals()
+        for k in self.keys:
+            self.scan_global_uses(self.info[k])
         # mix-in classes of the package that are not nn.Modules themselves (`_PyroMixin`, `GP`-side ABCs …): their
         # methods run on the Module instance, so their members and `self.<attr>` reads count as the Module class's own
         self._light = {}
@@ -1123,7 +1169,7 @@ class Translator:
             allnames |= {q for _, q, _ in ci.regs} | ci.init_attrs | ci.mut_attrs | ci.persisted_writes | ci.memo \
                 | ci.clears | ci.eff_clears | ci.eff_mut | ci.eff_drops | ci.lambda_priors
             allnames |= ci.own_reads | ci.members | ci.dyn_reads | {m for w in ci.writers.values() for m, _ in w} \
-                | {a for a, _, _ in ci.settings_stores} | {a for a, _ in ci.ctor_aliases}
+                | {a for a, _, _ in ci.settings_stores} | {a for a, _ in ci.ctor_aliases} | {a for a, _, _ in ci.global_uses}
         owned = set()
         for k in keys:
             owned |= self.info[k].init_attrs | self.info[k].mut_attrs
@@ -1194,6 +1240,10 @@ class Translator:
                    "`(class, registered name)` -/")
         ca = sorted({(cid[k], nid[a]) for k in keys for a, _ in self.info[k].ctor_aliases})
         out.append("def ctorArgAliases : List (Nat × Nat) := [" + ", ".join(f"({a}, {b})" for a, b in ca) + "]\n")
+        out.append("/-- module-level names bound to ONE `torch.nn.Module` instance (kind 0) or tensor (kind 1) per process that a\n"
+                   "method of the class uses (e.g. as the default of a constructor argument): `(class, global name, kind)` -/")
+        gu = sorted({(cid[k], nid[a], 0 if kd == "module" else 1) for k in keys for a, kd, _ in self.info[k].global_uses})
+        out.append("def ctorGlobalDefaults : List (Nat × Nat × Nat) := [" + ", ".join(f"({a}, {b}, {c})" for a, b, c in gu) + "]\n")
         out.append("/-- `self.<attr>` loads in the class's OWN methods other than `__init__` (attribute loads, augmented\n"
                    "assignments, `getattr/hasattr(self, \"c\")`, `self.__dict__[\"c\"]`), indexed by class id -/")
         out.append("def ownReads : List (List Nat) := [\n" + ",\n".join("  " + L(sorted(nid[a] for a in self.info[k].own_reads)) for k in keys) + "]\n")
@@ -1269,6 +1319,7 @@ class Translator:
                 "writers": {a: sorted(w) for a, w in ci.writers.items()},
                 "settings_reads": {m: sorted(r) for m, r in ci.settings_reads.items()},
                 "settings_stores": sorted(ci.settings_stores), "ctor_aliases": sorted(ci.ctor_aliases),
+                "global_uses": sorted(ci.global_uses),
             }
         return res
 
